@@ -505,6 +505,8 @@ def file_read(eng, f, n=None):
 def file_write(eng, f, data):
     if isinstance(data, (bytes, bytearray)):
         data = SBytes(list(data))
+    if isinstance(data, Native) and hasattr(data, "items"):
+        data = SBytes(list(data.items))  # opaque chunk objects of a stub (kept as items)
     if not isinstance(data, SBytes):
         raise ModelRaise("TypeError", cls=TypeError)
     if f.log is not None:
@@ -646,6 +648,10 @@ def call_method(eng, obj, name, args, kw):
         if name == "getbuffer":
             return SBytes(obj.items)
     if isinstance(obj, SBytes):
+        if name == "decode" and builtins.getattr(eng, "decode_hook", None) is not None:
+            r_ = eng.decode_hook(eng, obj)
+            if r_ is not NotImplemented:
+                return r_
         if name == "decode":
             enc = (args[0] if args else kw.get("encoding", "utf-8")).lower().replace("_", "-")
             if enc in ("utf-16le", "utf-16-le"):
